@@ -645,11 +645,25 @@ func fedSchemas() (*schemabuilder.Schema, *schemabuilder.Schema) {
 	s1 := schemabuilder.NewSchemaWithName("s1")
 	s1.Query().FieldFunc("fail", func(ctx context.Context) (int64, error) { return 0, errors.New("s1 failed") })
 	s1.Query().FieldFunc("one", func(ctx context.Context) int64 { return 1 })
-	s1.Query().FieldFunc("wait1", func(ctx context.Context) (int64, error) { <-ctx.Done(); return 0, ctx.Err() })
+	s1.Query().FieldFunc("wait1", slowUnwind)
 	s2 := schemabuilder.NewSchemaWithName("s2")
 	s2.Query().FieldFunc("two", func(ctx context.Context) int64 { return 2 })
-	s2.Query().FieldFunc("wait2", func(ctx context.Context) (int64, error) { <-ctx.Done(); return 0, ctx.Err() })
+	s2.Query().FieldFunc("wait2", slowUnwind)
 	return s1, s2
+}
+
+// resolversRunning counts resolvers of the cancellation scripts that have started and not yet returned.
+var resolversRunning int64
+
+// slowUnwind waits for its context to be cancelled and then needs a while to return, like a resolver
+// that has to finish a database round trip: a request that returns before its resolvers have returned
+// leaves goroutines (and the rerunner) behind.
+func slowUnwind(ctx context.Context) (int64, error) {
+	atomic.AddInt64(&resolversRunning, 1)
+	defer atomic.AddInt64(&resolversRunning, -1)
+	<-ctx.Done()
+	time.Sleep(150 * time.Millisecond)
+	return 0, ctx.Err()
 }
 
 func (e *env) runCancel(c *Case) ([]F, map[string]interface{}) {
@@ -757,6 +771,10 @@ func (e *env) runCancel(c *Case) ([]F, map[string]interface{}) {
 			fs = append(fs, F{"cancel-panic:" + c.Target, firstLine(p)})
 		}
 		obs["returned_ms"] = time.Since(t0).Milliseconds()
+		if n := atomic.LoadInt64(&resolversRunning); n > 0 {
+			fs = append(fs, F{"request-returned-while-resolver-running:" + c.Target + ":" + c.When,
+				fmt.Sprintf("the request returned while %d of its resolvers were still executing (computation goroutine and rerunner left behind)", n)})
+		}
 	case <-time.After(promptCap):
 		sig := "cancelled-request-blocks:" + c.Target + ":" + c.When
 		fs = append(fs, F{sig, fmt.Sprintf("request context cancelled %s the first run; still blocked after %s", c.When, promptCap)})
